@@ -114,6 +114,9 @@ func genEchoRequest(rng *rand.Rand) string {
 	}
 	if rng.Intn(3) == 0 {
 		fmt.Fprintf(&b, "X-Forwarded-For: %s\r\n", pick(rng, "1.2.3.4", "9.9.9.9, 8.8.8.8"))
+		if rng.Intn(2) == 0 { // a second header line
+			fmt.Fprintf(&b, "X-Forwarded-For: %s\r\n", pick(rng, "7.7.7.7", "6.6.6.6, 5.5.5.5"))
+		}
 	}
 	if rng.Intn(3) == 0 {
 		fmt.Fprintf(&b, "X-Forwarded-Proto: %s\r\n", pick(rng, "https", "ftp"))
@@ -244,7 +247,9 @@ func checkC13(r *RunResult) []Violation {
 	var out []Violation
 	w := r.W
 	strip, fwd := r.Sc.Params["strip"] != 0, r.Sc.Params["fwd"] != 0
-	add := func(clause, sig, msg string) { out = append(out, Violation{Prop: "C13", Clause: clause, Sig: sig, Msg: msg}) }
+	add := func(clause, sig, msg string) {
+		out = append(out, Violation{Prop: "C13", Clause: clause, Sig: sig, Msg: msg})
+	}
 	seenIDs := map[string]string{}
 	for _, q := range w.Responses {
 		if q.Actor == "main" || q.Ret == 0 {
